@@ -4,7 +4,7 @@ From GoPdf.Base Require Import Bytes Res.
 From GoPdf.Gen Require Import Gen_C08 Gen_Limits.
 From GoPdf.C08 Require Import Stream Simple LZW Predict Params Chain Classify Run
   SimpleProofs LZWProofs PredictProofs ParamsProofs ChainProofs ClassifyProofs BudgetProofs RunProofs
-  Charge CCITT ChargeProofs CCITTProofs Summary.
+  Charge CCITT ChargeProofs CCITTProofs DCTFrames DCTFramesProofs Summary.
 From GoPdf.Gen Require Import Gen_C08dct.
 Import ListNotations.
 
@@ -188,6 +188,15 @@ Theorem dct_pass_cap :
 Proof. exact (conj run_scans_bound scan_fast_iter). Qed.
 Print Assumptions dct_pass_cap.
 
+(* DCT: for every frame kind (baseline SOF0, extended sequential SOF1, progressive SOF2, any
+   other SOFn) and every sequence of scans - one scan over all components, one per component,
+   repeated scans, further SOS after the image is complete - the rows that reach the output
+   never exceed the height of the image *)
+Theorem dct_output_rows :
+  forall k h scans, (0 <= h)%Z -> (0 <= fst (decode_frame k h scans) <= h)%Z.
+Proof. exact dct_output_rows_lemma. Qed.
+Print Assumptions dct_output_rows.
+
 (* predictor row buffers, CCITT line buffers, JBIG2 pool (live bytes never exceed the cell),
    LZW (no charge: 20 KiB of fixed tables per reader) *)
 Theorem charge_covers_alloc :
@@ -287,3 +296,7 @@ Example ex_rowev : Forall (rowev_ok 16) [Row2 [EPass 8; EVert 16 0] false; Row1 
 Proof. repeat constructor; cbn; auto with zarith. Qed.
 Example ex_pw : pw_inv (PW 0 0) /\ run_scans [(100, 100); (0, 100); (0, 6300)]%Z (PW 0 0) = (PW 6401 100, false).
 Proof. split; [unfold pw_inv, pass_cap; cbn; auto with zarith | vm_compute; reflexivity]. Qed.
+Example ex_frames : decode_frame FExtended 16 [true; true; true] = (16, false)%Z
+                    /\ decode_frame FProgressive 16 [true; false; false] = (16, true)%Z
+                    /\ decode_frame FBaseline 16 [false; false; true] = (16, true)%Z.
+Proof. vm_compute. auto. Qed.
